@@ -30,7 +30,10 @@ PRINTFS = [None, "{id}|{start}|{end}|{duration}", "E{id}|{start}|{end}",
            # non-ASCII literals and a backslash sequence that is not one of
            # the documented \\n \\t \\r escapes (stays as it is)
            "\u00e9v\u00e9nement {id} \u2192 {start}\u2016{end}",
-           "{id}\\q{start}\\q{end}"]
+           "{id}\\q{start}\\q{end}",
+           # format specs / conversions on the placeholders (the time fields
+           # are strings at that point)
+           "{id:>3}|{start:>14}|{end!s}", "{duration:_<16}|{id:03d}"]
 TIMEFMTS = [None, "%S", "%I", "%h:%m:%s.%i", "%i_%s_%m_%h", "%hh%mm%ss%ims"]
 BAD_TIMEFMTS = ["%x", "%h:%m:%s.%i%q", "%H:%M"]
 
@@ -316,7 +319,8 @@ class Engine:
             if sc["save_O"]:
                 O_path = os.path.join(tmp, "stream." + sc["O_ext"])
                 argv += ["-O", O_path]
-                if sc["O_ext"] != "wav" and sc.get("stale_tmp"):
+                if (sc["outfmt"] or sc["O_ext"]) != "wav" \
+                        and sc.get("stale_tmp"):
                     # an earlier, interrupted run left its temporary wav
                     # behind (different audio)
                     C.write_wav(O_path + ".wav", b"\x11" * (4 * sw * ch), sr,
@@ -324,11 +328,10 @@ class Engine:
             if sc["join"] is not None:
                 argv += ["-j", repr(float(sc["join"]))]
             if sc["outfmt"] is not None and (sc["save_o"] or sc["save_O"]):
-                # -T must agree with the extensions used above to keep the
-                # expected container unambiguous
-                if (not sc["save_o"] or sc["o_ext"] == sc["outfmt"]) and (
-                        not sc["save_O"] or sc["O_ext"] == sc["outfmt"]):
-                    argv += ["-T", sc["outfmt"]]
+                # an explicit -T decides the container of -O and -o outputs,
+                # whatever their extensions say
+                argv += ["-T", sc["outfmt"]]
+                res["T"] = sc["outfmt"]
             if sc["cmd"]:
                 argv += ["-C", "run {file}"]
             if sc.get("debug_file"):
@@ -574,8 +577,16 @@ class Engine:
     def _compare(self, sc, sim, res, E, base, tmp, o_tmpl, O_path, V,
                  interrupted, visible):
         sw, ch, sr, bsz = sc["fmt"]
-        # ---- stdout (clauses 1, 2)
-        lines = list(seams.PRINTED)
+        # ---- stdout (clauses 1, 2): what a real process would have printed
+        # before exiting (daemon threads die when the last non-daemon thread
+        # has ended)
+        xs = sim.process_exit_seq()
+        dr = sim.daemon_roles()
+        lines = [ln for ln, (q, role) in zip(seams.PRINTED,
+                                             seams.PRINT_META)
+                 if not (role in dr and q > xs)]
+        if len(lines) != len(seams.PRINTED):
+            res["_lost_at_exit"] = len(seams.PRINTED) - len(lines)
         if sc["quiet"]:
             if lines:
                 return V("C15.2", "-q given but %d line(s) printed: %r" % (
@@ -608,13 +619,13 @@ class Engine:
                     [os.path.basename(f) for f in sorted(names)]),
                     "C15.3:o_names")
             for nme, r in zip(names, E):
-                d, hp = _read_audio(nme, sc["o_ext"])
+                d, hp = _read_audio(nme, res.get("T") or sc["o_ext"])
                 if d != bytes(r.data) or (hp and hp != (sr, sw, ch)):
                     return V("C15.3", "-o file %s differs from its detection"
                              % os.path.basename(nme), "C15.3:o_data")
         if O_path is not None:
             try:
-                d, hp = _read_audio(O_path, sc["O_ext"])
+                d, hp = _read_audio(O_path, res.get("T") or sc["O_ext"])
             except Exception as e:
                 return V("C15.3", "-O file unreadable: %r" % (e,),
                          "C15.3:O_unreadable")
@@ -689,21 +700,43 @@ def _check_line(line, pf, tf, i, r):
         return "no newline"
     line = line[:-1]
     # split the template into literal / placeholder pieces
-    parts = re.split(r"(\{id\}|\{start\}|\{end\}|\{duration\})", pf)
+    parts = re.split(r"(\{(?:id|start|end|duration)(?:![rs])?(?::[^}]*)?\})",
+                     pf)
     rx = ""
     order = []
+    specs = []
     for p in parts:
-        if p in ("{id}", "{start}", "{end}", "{duration}"):
+        mm = re.fullmatch(r"\{(id|start|end|duration)(![rs])?(:[^}]*)?\}", p)
+        if mm:
             rx += "(.*?)"
-            order.append(p[1:-1])
+            order.append(mm.group(1))
+            specs.append((mm.group(3) or ":")[1:])
         else:
             rx += re.escape(p)
     m = re.fullmatch(rx, line, re.S)
     if not m:
         return "does not match the template"
-    for name, text in zip(order, m.groups()):
+    for name, text, spec in zip(order, m.groups(), specs):
+        if spec:
+            # undo the padding the spec adds (fill + alignment + width)
+            ms_ = re.fullmatch(r"(?:(.)?([<>^]))?(0)?(\d+)?(d)?", spec)
+            if ms_ is None:
+                return "unsupported spec %r in the oracle" % spec
+            fill = ms_.group(1) or ("0" if ms_.group(3) else " ")
+            width = int(ms_.group(4) or 0)
+            if len(text) < width:
+                return "%s: %r is narrower than the requested width %d" % (
+                    name, text, width)
+            if len(text) == width:
+                al = ms_.group(2) or (">" if (name == "id") else "<")
+                if al == ">":
+                    text = text.lstrip(fill)
+                elif al == "<":
+                    text = text.rstrip(fill)
+                else:
+                    text = text.strip(fill)
         if name == "id":
-            if text != str(i):
+            if text.lstrip("0") != str(i) and text != str(i):
                 return "id %r, expected %d" % (text, i)
         else:
             msg = _check_time(text, tf, {"start": r.start, "end": r.end,
